@@ -4,6 +4,58 @@ package cmd
 
 func init() {
 	vHarnesses["VerifC18ParseRuleId"] = VerifC18ParseRuleId
+	vHarnesses["VerifC18Root"] = VerifC18Root
+	vHarnesses["VerifC18StdinVsFile"] = VerifC18StdinVsFile
+}
+
+// C18: the CRS root is the nearest ancestor-or-self of the start directory that contains regex-assembly.
+// Which of the candidate directories contain regex-assembly is symbolic (all nestings of roots at once).
+func VerifC18Root() {
+	dir := vTempDir()
+	chain := []string{dir + "/a", dir + "/a/b", dir + "/a/b/c", dir + "/a/b/c/d"}
+	depth := vParam("depth") // start directory = chain[depth]
+	has := []bool{vNondetBool("root_in_a"), vNondetBool("root_in_b"), vNondetBool("root_in_c"), vNondetBool("root_in_d")}
+	for i := 0; i < 4; i++ {
+		vStatDir(chain[i]+"/regex-assembly", has[i])
+	}
+	vStatDir(chain[depth], true)
+	got, err := findRootDirectory(chain[depth])
+	vReach("resolved")
+	want := ""
+	for i := depth; i >= 0; i-- {
+		if has[i] {
+			want = chain[i]
+			break
+		}
+	}
+	if want != "" {
+		vAssert(err == nil && got == want, "C18 the root is the nearest ancestor-or-self that contains regex-assembly")
+	} else {
+		// no root below the temporary directory: the search continues above it, where nothing is modelled
+		vAssert(err != nil || len(got) < len(dir)+2, "C18 no directory without regex-assembly is returned as root")
+	}
+}
+
+// C18: generate gives the same result for a file argument and for the same bytes on stdin.
+func VerifC18StdinVsFile() {
+	// two lines with symbolic bytes (blanks and tabs included); the line structure itself is fixed
+	content := vNondetStrOf("l1", 2, "ab \t") + "\n" + vNondetStrOf("l2", 2, "ab \t") + "\n"
+	dir := vTempDir()
+	vWriteFile(dir+"/regex-assembly/123456.ra", content)
+	rootValues.workingDirectory = workingDirectory(dir)
+	rootValues.configurationFileName = "toolchain.yaml"
+	vStubJoinEcho()
+	ruleValues.id = "123456"
+	ruleValues.fileName = "123456.ra"
+	ruleValues.chainOffset = 0
+	gen := createGenerateCommand()
+	ruleValues.useStdin = false
+	fromFile := vCaptureStdout(func() { gen.Run(gen, []string{"123456"}) })
+	vSetStdin(content)
+	ruleValues.useStdin = true
+	fromStdin := vCaptureStdout(func() { gen.Run(gen, []string{"-"}) })
+	vReach("both-generated")
+	vAssert(fromFile == fromStdin, "C18 generate prints the same regex for a file argument and for the same bytes on stdin")
 }
 
 // refParseRuleId is an independent reading of the documented argument grammar
